@@ -11,8 +11,8 @@ export CARGO_NET_OFFLINE=true
 mkdir -p .build/logs evidence replays
 cp /repo/Cargo.lock kani/Cargo.lock 2>/dev/null || true
 cp /repo/Cargo.lock replay/Cargo.lock 2>/dev/null || true
-( cd kani && timeout 1500 cargo kani --target-dir /verif/.build/kani-target -Z stubbing --exact --harness c15::c15_atomic_move_n2_l5 --only-codegen > /verif/.build/logs/setup-kani.log 2>&1 ) &
-( cd replay && CARGO_TARGET_DIR=/verif/.build/replay-target timeout 900 cargo build --offline > /verif/.build/logs/setup-replay.log 2>&1 ) &
-( timeout 900 python3-vt -c "import sys; sys.path.insert(0, '/verif/mir'); import mirdump; print(mirdump.dump())" > /verif/.build/logs/setup-mir.log 2>&1 ) &
+( cd kani && timeout 1500 cargo kani --target-dir "$PWD/../.build/kani-target" -Z stubbing --exact --harness c15::c15_atomic_move_n2_l5 --only-codegen > ../.build/logs/setup-kani.log 2>&1 ) &
+( cd replay && CARGO_TARGET_DIR="$PWD/../.build/replay-target" timeout 900 cargo build --offline > ../.build/logs/setup-replay.log 2>&1 ) &
+( timeout 900 python3-vt -c "import sys; sys.path.insert(0, 'mir'); import mirdump; print(mirdump.dump())" > .build/logs/setup-mir.log 2>&1 ) &
 wait
 exit 0
